@@ -244,13 +244,14 @@ static int c_deflate(const struct cparams *p, uint8_t *in, size_t len, uint8_t *
 				 * so a codec that reads consumed input again produces wrong output instead of getting away with it */
 				if (cur_in)
 					memset(cur_in, 0xA5, cur_len);
-				cur_in = ci ? g_alloc(ci, G_END) : NULL;
-				cur_len = ci;
-				if (ci)
+				if (ci) {
+					cur_in = g_alloc(ci, G_END);
+					cur_len = ci;
 					memcpy(cur_in, in + ip, ci);
-				s->next_in = cur_in ? cur_in : in + ip;
-				s->avail_in = ci;
-				ip += ci;
+					s->next_in = cur_in;
+					s->avail_in = ci;
+					ip += ci;
+				} /* else: nothing more to offer; next_in keeps pointing behind the consumed (now reused) chunk */
 			}
 			s->end_of_stream = ip >= len;
 			s->next_out = out + op;
